@@ -75,6 +75,13 @@ def w_slim(ctx, rng, idx):
     thr = [0, 1e-12][int(rng.integers(0, 2))]
     ctx.describe({'op': 'slim_mme', 'state_space': ss, 'cyclic': cyc, 'threshold': thr, 'single': single, 'two': two})
     call('slim.slim_mme', slim.slim_mme, ss, single, two, prop=P, tags=['cyclic' if cyc else 'open'], threshold=thr)
+    if rng.random() < 0.3:  # the same list objects again: other threshold, and the chain opened / closed by its owner
+        call('slim.slim_mme', slim.slim_mme, ss, single, two, prop=P, tags=['cyclic' if cyc else 'open', 'second_call'], threshold=1e-12 if thr == 0 else 0)
+        if cyc:
+            two.pop()
+        else:
+            two.append(rand_two(rng, ss[-1], ss[0]))
+        call('slim.slim_mme', slim.slim_mme, ss, single, two, prop=P, tags=['open' if cyc else 'cyclic', 'second_call'], threshold=thr)
     if idx < 3:
         ctx.sample({'workload': 'slim', 'state_space': ss, 'cyclic': cyc, 'threshold': thr, 'single_cell_reactions': single, 'two_cell_reactions': two})
 
